@@ -740,7 +740,8 @@ class _ExtractMethodParts(ast.RopeNodeVisitor):
                 & self.info_collector.postread
                 & (self.info_collector.maybe_written - self.info_collector.written)
             )
-            return list(result)
+            # names the host declares global are reached as globals
+            return list(result - self.info_collector.globals_)
         start = self.info.region[0]
         if start == self.info.lines_region[0]:
             start = start + re.search("\\S", self.info.extracted).start()
@@ -748,7 +749,10 @@ class _ExtractMethodParts(ast.RopeNodeVisitor):
         read = _VariableReadsAndWritesFinder.find_reads_for_one_liners(
             function_definition
         )
-        return list(self.info_collector.prewritten.intersection(read))
+        return list(
+            self.info_collector.prewritten.intersection(read)
+            - self.info_collector.globals_
+        )
 
     def _find_function_returns(self):
         if self.info.one_line:
